@@ -1,0 +1,69 @@
+//go:build verif
+
+package interp
+
+import (
+	"go/constant"
+	"reflect"
+)
+
+// Verification hooks for constant expressions (property C03). Compiled only
+// with -tags verif; thin wrappers over unexported pure functions, no change of
+// behaviour.
+
+// VerifRepresentableConst exposes representableConst for a basic kind.
+func VerifRepresentableConst(c constant.Value, k reflect.Kind) bool {
+	t := verifBasicType(k)
+	if t == nil {
+		return false
+	}
+	return representableConst(c, t)
+}
+
+// VerifBitlen exposes the bitlen table (0 for kinds it does not list).
+func VerifBitlen(k reflect.Kind) int {
+	if int(k) >= len(bitlen) {
+		return 0
+	}
+	return bitlen[k]
+}
+
+func verifBasicType(k reflect.Kind) reflect.Type {
+	switch k {
+	case reflect.Bool:
+		return reflect.TypeOf(false)
+	case reflect.Int:
+		return reflect.TypeOf(int(0))
+	case reflect.Int8:
+		return reflect.TypeOf(int8(0))
+	case reflect.Int16:
+		return reflect.TypeOf(int16(0))
+	case reflect.Int32:
+		return reflect.TypeOf(int32(0))
+	case reflect.Int64:
+		return reflect.TypeOf(int64(0))
+	case reflect.Uint:
+		return reflect.TypeOf(uint(0))
+	case reflect.Uint8:
+		return reflect.TypeOf(uint8(0))
+	case reflect.Uint16:
+		return reflect.TypeOf(uint16(0))
+	case reflect.Uint32:
+		return reflect.TypeOf(uint32(0))
+	case reflect.Uint64:
+		return reflect.TypeOf(uint64(0))
+	case reflect.Uintptr:
+		return reflect.TypeOf(uintptr(0))
+	case reflect.Float32:
+		return reflect.TypeOf(float32(0))
+	case reflect.Float64:
+		return reflect.TypeOf(float64(0))
+	case reflect.Complex64:
+		return reflect.TypeOf(complex64(0))
+	case reflect.Complex128:
+		return reflect.TypeOf(complex128(0))
+	case reflect.String:
+		return reflect.TypeOf("")
+	}
+	return nil
+}
